@@ -12,12 +12,12 @@ func init() {
 }
 
 func c18(tier string) int {
-	plans := []enum.Plan{{Family: "list-subsets"}, {Family: "list-long"}, {Family: "list-ops", Params: "depth=8"}}
+	plans := []enum.Plan{{Family: "list-subsets"}, {Family: "list-long"}, {Family: "list-ops", Params: "depth=8"}, {Family: "list-drain", Params: "maxn=140"}}
 	if tier == "thorough" {
-		plans = []enum.Plan{{Family: "list-subsets"}, {Family: "list-long"}, {Family: "list-ops", Params: "depth=10"}}
+		plans = []enum.Plan{{Family: "list-subsets"}, {Family: "list-long"}, {Family: "list-ops", Params: "depth=10"}, {Family: "list-drain", Params: "maxn=300"}}
 	}
 	return enumCheck("C18", tier, 90*time.Second, 25*time.Minute, plans,
-		"(a) all 4096 subsets of a 12-element sequence domain as version lists: Latest, LastBefore at all 28 probe points, IterateBeforeSeq at all horizons, and for every horizon the production collect pattern (PopFront inside the iteration) followed by all lookups again, with and without the search array; (b) all operation sequences of the stated depth over push, push-with-gap, pop-front, pop-back and collect at three horizons with all lookups compared after every step; (c) deterministic long lists (1..64, 1000, 4096 elements) probed at and around every element; reference: a plain slice with linear scans",
+		"(a) all 4096 subsets of a 12-element sequence domain as version lists: Latest, LastBefore at all 28 probe points, IterateBeforeSeq at all horizons, and for every horizon the production collect pattern (PopFront inside the iteration) followed by all lookups again, with and without the search array; (b) all operation sequences of the stated depth over push, push-with-gap, pop-front, pop-back and collect at three horizons with all lookups compared after every step; (c) deterministic long lists (1..64, 1000, 4096 elements) probed at and around every element; (d) lists of every length 1..140 (thorough 300) drained by every number of front pops and 0..2 back pops, then grown again, all lookups at all probe points; reference: a plain slice with linear scans",
 		[]string{"the 'random long lists' part of the quantifier is replaced by deterministic long lists",
 			"a snapshot point / horizon never equals a version number (sequence numbers are drawn from one counter); that degenerate probe is skipped in the 'unchanged after collect' comparison"})
 }
@@ -25,20 +25,20 @@ func c18(tier string) int {
 func init() { table["C19"] = c19 }
 
 func c19(tier string) int {
-	plans := []enum.Plan{{Family: "codec-roundtrip"}, {Family: "codec-decode"}, {Family: "codec-fixture"}}
+	plans := []enum.Plan{{Family: "codec-roundtrip"}, {Family: "codec-longkeys"}, {Family: "codec-decode"}, {Family: "codec-fixture"}}
 	return enumCheck("C19", tier, 60*time.Second, 3*time.Minute, plans,
-		"encode through repository/file.Repo.Set and decode through Repo.GetAll (recording provider) against an independent codec of the documented layout: keys = all byte strings of length <= 3 over {00,'a',80,ff}, lengths 4..64, 255, 256, 65535; sequences = 0, 1, every single bit, every ff-prefix, 2^64-1; all 36 pairs of six boundary UUIDs; decoding of all lengths 0..41 with each position class filled from a 3-symbol alphabet, every truncation of a valid record, golden vector (bytes written down in the harness)",
+		"encode through repository/file.Repo.Set and decode through Repo.GetAll (recording provider) against an independent codec of the documented layout: keys = all byte strings of length <= 3 over {00,'a',80,ff}, lengths 4..64, 255, 256, 65535, and (fewer id/sequence combinations) every key length n with n or n+40 within one of a power of two from 2^7 to 2^20, and 3 MiB; sequences = 0, 1, every single bit, every ff-prefix, 2^64-1; all 36 pairs of six boundary UUIDs; decoding of all lengths 0..41 with each position class filled from a 3-symbol alphabet, every truncation of a valid record, golden vector (bytes written down in the harness)",
 		[]string{"family codec-fixture: a database directory written by the pinned revision (42f3f3c) through the public API on the real Badger engine — /verif/fixtures/pinned_db.tar, with overwritten, deleted, committed and abandoned records — is opened by the current tree on the real engine and must serve exactly its recorded contents"})
 }
 
 func init() { table["C20"] = c20 }
 
 func c20(tier string) int {
-	plans := []enum.Plan{{Family: "config-lattice", Params: "mode=pairs"}}
+	plans := []enum.Plan{{Family: "config-lattice", Params: "mode=pairs"}, {Family: "config-values"}}
 	if tier == "thorough" {
 		plans = append(plans, enum.Plan{Family: "config-lattice", Params: "mode=all"})
 	}
 	return enumCheck("C20", tier, 60*time.Second, 8*time.Minute, plans,
-		"every combination, per setting, of {absent, file only, environment only, both, environment empty with/without file, malformed in environment, malformed in file} over all seven settings (quick: every pair of settings in all 64 state combinations with the others at three base states; thorough: the full product), each a real ParseConfig on a generated YAML file and environment, compared with a reference precedence function; ParseConfig is called twice with the first result mutated in between (defaults must not be aliased); Storage.Valid on the boundary set",
+		"every combination, per setting, of {absent, file only, environment only, both, environment empty with/without file, malformed in environment, malformed in file} over all seven settings (quick: every pair of settings in all 64 state combinations with the others at three base states; thorough: the full product), each a real ParseConfig on a generated YAML file and environment, compared with a reference precedence function; ParseConfig is called twice with the first result mutated in between (defaults must not be aliased); Storage.Valid on the boundary set; value tables: 4-6 boundary and 4-6 malformed representations of each numeric / duration setting in the environment (negative and overflowing counts, missing or unknown units, fractions, hexadecimal, exponent notation) with the other settings absent / in the file / in both",
 		nil)
 }
